@@ -212,6 +212,9 @@ class H2Protocol:
             await self.has_data.set()
 
     async def stream_send(self, event: StreamEvent) -> None:
+        if self.closed:
+            return  # Nothing more can be sent, allow the app to finish
+
         try:
             if isinstance(event, (InformationalResponse, Response)):
                 self.connection.send_headers(
